@@ -480,7 +480,15 @@ impl Monitor for C06 {
             }
             6 => self.constructors(ctx, r),
             _ => {
-                if ctx.thorough && r.chance(1, 500) {
+                if r.chance(1, 4000) || (ctx.thorough && r.chance(1, 400)) {
+                    // deep identification trees: 2^k points merged in tournament order
+                    let k = 9 + r.below(3) as u32;
+                    let (n, pairs) = crate::gen::tournament_pairs(r, k);
+                    let f: F = (pairs.iter().map(|p| p.0).collect(), n);
+                    let g: F = (pairs.iter().map(|p| p.1).collect(), n);
+                    ctx.class("tournament_coequalizer");
+                    self.pair(ctx, &f, &g);
+                } else if ctx.thorough && r.chance(1, 500) {
                     // long chain of identifications: coequalizer of i |-> i and i |-> i+1 on 10^4 points
                     let n = 10_000;
                     let f: F = ((0..n - 1).collect(), n);
